@@ -620,6 +620,74 @@ func c10(run *ev.Run, tier string) {
 		r := packageInfo(format, info)
 		expectSigningFailure("key-id-unknown/"+fm, r.Err, r.Panic, nil)
 	}
+	// a signer whose own error already is (wraps) an ErrSigningFailure with more
+	// context around it: the returned error must still wrap the signer's error
+	{
+		outer := &wrappedSignerError{inner: &nfpm.ErrSigningFailure{Err: errors.New("kms backend said no")}}
+		for _, fm := range []string{"deb", "deb-dpkg-sig", "rpm", "apk"} {
+			format := strings.SplitN(fm, "-", 2)[0]
+			s := base()
+			if fm == "deb-dpkg-sig" {
+				s.Deb.Sig.Method = "dpkg-sig"
+			}
+			cfg, _ := parseYAML(s.YAML(), nil)
+			info, _ := infoFor(&cfg, format)
+			fn := func(io.Reader) ([]byte, error) { return nil, outer }
+			switch format {
+			case "deb":
+				info.Deb.Signature.SignFn = fn
+			case "rpm":
+				info.RPM.Signature.SignFn = fn
+			case "apk":
+				info.APK.Signature.SignFn = fn
+			}
+			r := packageInfo(format, info)
+			expectSigningFailure("callback-error-wrapping-a-signing-failure/"+fm, r.Err, r.Panic, outer)
+		}
+	}
+	// history: after all the failed signings above, signing must still work in
+	// this process (nothing stale may be left behind by a failed attempt)
+	for _, f := range []string{"deb", "rpm", "apk"} {
+		s := base()
+		s.Deb.Sig.KeyFile = testKey("privkey_unprotected.asc")
+		s.RPM.Sig.KeyFile = testKey("privkey_unprotected.asc")
+		s.APK.Sig.KeyFile = testKey("rsa_unprotected.priv")
+		// first a failing apk/deb/rpm build whose control data differs, then the good one
+		bad := base()
+		bad.Description = "a different control segment " + strings.Repeat("x", 700)
+		bad.Deb.Sig.KeyFile, bad.RPM.Sig.KeyFile, bad.APK.Sig.KeyFile = testKey("privkey.asc"), testKey("privkey.asc"), testKey("rsa.priv") // protected, no passphrase
+		_ = buildYAML(bad.YAML(), f)
+		res := buildYAML(s.YAML(), f)
+		run.Case("sign-after-failed-signing|"+f, true)
+		if res.Err != nil || res.Panic != "" {
+			run.Violate("C10/"+f+"/signed-build-error/after-failed-signing", map[string]any{"error": fmt.Sprint(res.Err, res.Panic)})
+			continue
+		}
+		p := dec.Decode(f, res.Bytes, false)
+		var verr error
+		switch f {
+		case "deb":
+			_, verr = openpgp.CheckArmoredDetachedSignature(kr, bytes.NewReader(debMessage(p)), bytes.NewReader(p.SigMember.Data), nil)
+		case "rpm":
+			_, verr = openpgp.CheckDetachedSignature(kr, bytes.NewReader(p.Rpm.Hdr.Blob), bytes.NewReader(p.Rpm.Sig.Tags[dec.RpmSigRSA].Bin), nil)
+		case "apk":
+			pub, _ := loadRSAPub(testKey("rsa_unprotected.pub"))
+			d := sha1.Sum(p.CtrlRaw)
+			if p.SigTar == nil || len(p.SigTar.Entries) != 1 {
+				verr = errors.New("no signature segment")
+			} else {
+				verr = rsa.VerifyPKCS1v15(pub, crypto.SHA1, d[:], p.SigTar.Entries[0].Data)
+			}
+		}
+		if verr != nil {
+			run.Violate("C10/"+f+"/signature-does-not-verify/after-failed-signing", map[string]any{"error": verr.Error()})
+		} else {
+			atomic.AddInt64(&verified, 1)
+		}
+	}
+	// history: the key file is replaced by another key between two builds in
+	// the same process; the second package must be signed by the new key
+	c10KeyRotation(run, base, &verified)
 	run.Set("signatures_verified", verified)
 	run.Set("callback_byte_streams_compared", cbBytes)
 	run.Set("failure_injections", failures)
@@ -701,4 +769,77 @@ func armorDecode(b []byte) (io.Reader, error) {
 		return nil, err
 	}
 	return blk.Body, nil
+}
+
+type wrappedSignerError struct{ inner error }
+
+func (w *wrappedSignerError) Error() string { return "remote signer: " + w.inner.Error() }
+func (w *wrappedSignerError) Unwrap() error { return w.inner }
+
+func writeArmoredPrivateKey(path string, e *openpgp.Entity) error {
+	var b bytes.Buffer
+	w, err := armor.Encode(&b, openpgp.PrivateKeyType, nil)
+	if err != nil {
+		return err
+	}
+	if err := e.SerializePrivate(w, nil); err != nil {
+		return err
+	}
+	if err := w.Close(); err != nil {
+		return err
+	}
+	return os.WriteFile(path, b.Bytes(), 0o600)
+}
+
+func c10KeyRotation(run *ev.Run, base func() *gen.Spec, verified *int64) {
+	dir := newWorkDir("c10rot")
+	defer removeWorkDir(dir)
+	cfg := &packet.Config{RSABits: 2048, DefaultHash: crypto.SHA256}
+	k1, err1 := openpgp.NewEntity("Key One", "", "one@example.com", cfg)
+	k2, err2 := openpgp.NewEntity("Key Two", "", "two@example.com", cfg)
+	if err1 != nil || err2 != nil {
+		run.Inconclusive(fmt.Sprint("cannot generate PGP keys: ", err1, err2))
+		return
+	}
+	keyPath := filepath.Join(dir, "signing-key.asc")
+	for _, f := range []string{"deb", "deb-dpkg-sig", "rpm"} {
+		format := strings.SplitN(f, "-", 2)[0]
+		for round, k := range []*openpgp.Entity{k1, k2, k1} {
+			if err := writeArmoredPrivateKey(keyPath, k); err != nil {
+				run.Inconclusive(err.Error())
+				return
+			}
+			s := base()
+			s.Deb.Sig.KeyFile, s.RPM.Sig.KeyFile = keyPath, keyPath
+			if f == "deb-dpkg-sig" {
+				s.Deb.Sig.Method = "dpkg-sig"
+			}
+			res := buildYAML(s.YAML(), format)
+			run.Case(fmt.Sprintf("key-rotation|%s|%d", f, round), round > 0)
+			if res.Err != nil || res.Panic != "" {
+				run.Violate("C10/"+format+"/signed-build-error/rotated-key", map[string]any{"round": round, "method": f, "error": fmt.Sprint(res.Err, res.Panic)})
+				continue
+			}
+			p := dec.Decode(format, res.Bytes, false)
+			ring := openpgp.EntityList{k}
+			var verr error
+			switch f {
+			case "deb":
+				_, verr = openpgp.CheckArmoredDetachedSignature(ring, bytes.NewReader(debMessage(p)), bytes.NewReader(p.SigMember.Data), nil)
+			case "deb-dpkg-sig":
+				if blk, _ := clearsign.Decode(p.SigMember.Data); blk == nil {
+					verr = errors.New("not clear-signed")
+				} else {
+					_, verr = blk.VerifySignature(ring, nil)
+				}
+			case "rpm":
+				_, verr = openpgp.CheckDetachedSignature(ring, bytes.NewReader(p.Rpm.Hdr.Blob), bytes.NewReader(p.Rpm.Sig.Tags[dec.RpmSigRSA].Bin), nil)
+			}
+			if verr != nil {
+				run.Violate("C10/"+format+"/signature-not-by-the-key-in-the-key-file/after-key-rotation", map[string]any{"round": round, "method": f, "error": verr.Error()})
+			} else {
+				atomic.AddInt64(verified, 1)
+			}
+		}
+	}
 }
